@@ -1,8 +1,137 @@
-import KfacVerif.Model.Kaisa
+/-
+C06 — KAISA work assignment is well-formed and identical on every rank.
+Property theorems only; helper lemmas live in Lemmas/Grid.lean and Lemmas/Greedy.lean.
+The model (`KV.Kaisa.Cfg` and its queries) mirrors `KAISAAssignment`; CPython's set
+iteration order is the parameter `gOrder`, and every theorem holds for EVERY order
+satisfying `Cfg.OK` (a reordering of the columns with reordered members).
+-/
+import KfacVerif.Lemmas.Grid
+import KfacVerif.Props.C17
+import Mathlib.Tactic.Linarith
+import Mathlib.Tactic.Positivity
+import Mathlib.Algebra.Order.Field.Basic
+import Mathlib.Algebra.Order.AbsoluteValue.Basic
 
 namespace KV.C06
 open KV KV.Kaisa
 
-theorem flags_comm_opt (c : Cfg) : c.broadcastGradients = decide (c.k < c.w) := rfl
+/-- what the implementation guarantees about its arguments once validation passed, and what
+    the harness checks of the observed set order -/
+structure OK (c : Cfg) : Prop where
+  wpos : 0 < c.w
+  kpos : 0 < c.k
+  dvd : c.k ∣ c.w
+  gne : c.gOrder ≠ []
+  gperm : ∀ g ∈ c.gOrder, ∃ g' ∈ cols c.w c.k, g.Perm g'
+  work : C17.WorkOK c.work
+  fne : ∀ l ∈ c.work, l.2 ≠ []
+
+/-! ### the grid: both families partition the world into equal parts -/
+
+theorem cols_length {w k : Nat} (hk : 0 < k) (hd : k ∣ w) :
+    (cols w k).length = w / k ∧ ∀ g ∈ cols w k, g.length = k ∧ g.Nodup ∧ ∀ r ∈ g, r < w :=
+  cols_length' hk hd
+
+theorem rows_length {w k : Nat} (hk : 0 < k) (hd : k ∣ w) :
+    (rows w k).length = k ∧ ∀ g ∈ rows w k, g.length = w / k ∧ g.Nodup ∧ ∀ r ∈ g, r < w :=
+  rows_length' hk hd
+
+/-- every rank lies in exactly one gradient-worker group (column) -/
+theorem cols_cover_unique {w k : Nat} (hk : 0 < k) (hd : k ∣ w) {r : Nat} (hr : r < w) :
+    ∃ g ∈ cols w k, r ∈ g ∧ ∀ g' ∈ cols w k, r ∈ g' → g' = g :=
+  cols_cover_unique' hk hd hr
+
+/-- every rank lies in exactly one gradient-receiver group (row) -/
+theorem rows_cover_unique {w k : Nat} (hk : 0 < k) (hd : k ∣ w) {r : Nat} (hr : r < w) :
+    ∃ g ∈ rows w k, r ∈ g ∧ ∀ g' ∈ rows w k, r ∈ g' → g' = g :=
+  rows_cover_unique' hk hd hr
+
+/-- a row and a column meet in exactly one rank -/
+theorem row_col_meet_once {w k : Nat} (hk : 0 < k) (hd : k ∣ w) {R C : List Nat}
+    (hR : R ∈ rows w k) (hC : C ∈ cols w k) :
+    ∃ r, r ∈ R ∧ r ∈ C ∧ ∀ r', r' ∈ R → r' ∈ C → r' = r :=
+  row_col_meet_once' hk hd hR hC
+
+/-! ### the assignment -/
+
+/-- every layer's gradient-worker group is one of the columns -/
+theorem workerGroup_is_col {c : Cfg} (h : OK c) {l : String × List (String × Nat)} (hl : l ∈ c.work) :
+    c.workerGroup l.1 ∈ cols c.w c.k :=
+  (assign_core h.kpos h.dvd h.gne h.gperm h.work.layers hl (h.fne l hl)
+    (fun _ hf => C17.complete_assigned h.work hl hf)).1
+
+/-- all inverse workers of a layer lie in that layer's gradient-worker group -/
+theorem inv_worker_in_worker_group {c : Cfg} (h : OK c) {l : String × List (String × Nat)}
+    (hl : l ∈ c.work) {f : String × Nat} (hf : f ∈ l.2) :
+    ∃ r, c.invWorker l.1 f.1 = some r ∧ r ∈ c.workerGroup l.1 :=
+  (assign_core h.kpos h.dvd h.gne h.gperm h.work.layers hl (h.fne l hl)
+    (fun _ hf => C17.complete_assigned h.work hl hf)).2 f hf
+
+/-- the receiver group of a rank is the row containing it -/
+theorem receiverGroup_is_row {c : Cfg} (h : OK c) {loc : Nat} (hloc : loc < c.w) :
+    c.receiverGroup loc ∈ rows c.w c.k ∧ loc ∈ c.receiverGroup loc :=
+  receiverGroup_spec h.kpos h.dvd hloc
+
+/-- every rank has exactly one gradient source per layer: a gradient worker of the layer inside
+    the rank's own receiver group, the rank itself when it is a gradient worker -/
+theorem src_spec {c : Cfg} (h : OK c) {loc : Nat} (hloc : loc < c.w)
+    {l : String × List (String × Nat)} (hl : l ∈ c.work) :
+    ∃ s, c.srcGradWorker loc l.1 = some s ∧ s ∈ c.workerGroup l.1 ∧ s ∈ c.receiverGroup loc ∧
+      (∀ s', s' ∈ c.workerGroup l.1 → s' ∈ c.receiverGroup loc → s' = s) ∧
+      (c.isGradWorker loc l.1 = true → s = loc) :=
+  src_core h.kpos h.dvd hloc (workerGroup_is_col h hl)
+
+set_option linter.unusedVariables false in -- holds without `OK`; hypotheses kept for uniformity
+/-- the source of a rank is itself a gradient worker (so it does hold a preconditioned gradient) -/
+theorem src_is_worker {c : Cfg} (h : OK c) {loc : Nat} (hloc : loc < c.w)
+    {l : String × List (String × Nat)} (hl : l ∈ c.work) {s : Nat}
+    (hs : c.srcGradWorker loc l.1 = some s) : c.isGradWorker s l.1 = true :=
+  src_is_worker' hs
+
+/-- nothing that identifies work depends on the local rank: `assign`, `invWorker`,
+    `workerGroup`, `groupsCreated` do not take it (definitional); what does depend on it is
+    exactly `receiverGroup`, `isGradWorker`, `srcGradWorker`. -/
+theorem rank_independent (c : Cfg) (_loc _loc' : Nat) (l f : String) :
+    c.invWorker l f = c.invWorker l f ∧ c.workerGroup l = c.workerGroup l := ⟨rfl, rfl⟩
+
+/-! ### flags and strategy -/
+
+theorem flags (c : Cfg) :
+    (c.broadcastGradients = true ↔ c.k < c.w) ∧ (c.broadcastInverses = true ↔ 1 < c.k) := by
+  simp [Cfg.broadcastGradients, Cfg.broadcastInverses]
+
+theorem strategy_spec (w k : Nat) :
+    (strategyOf w k = .commOpt ↔ k = w) ∧
+    (strategyOf w k = .memOpt ↔ k ≠ w ∧ k ≤ 1) ∧
+    (strategyOf w k = .hybridOpt ↔ k ≠ w ∧ 1 < k) :=
+  strategy_spec' w k
+
+/-! ### fractions -/
+
+/-- integer side: every `k ∣ w` (as the exact fraction `k/w`) passes validation with `k` workers -/
+theorem validate_accepts {w k loc : Nat} (hk : 0 < k) (hd : k ∣ w) (hw : 0 < w) (hloc : loc < w) :
+    validate w k w loc = .ok k :=
+  validate_accepts' hk hd hw hloc
+
+/-- … and a fraction whose product with the world size is not an integer is rejected -/
+theorem validate_rejects_nonintegral {w num den loc : Nat} (hden : 0 < den) (hle : den ≤ w * num)
+    (hnd : (w * num) % den ≠ 0) : validate w num den loc = .valueError :=
+  validate_rejects_nonintegral' hden hle hnd
+
+/-- float side, standard rounding model: with `x = fl(w * fl(k / w)) = k (1+δ₁)(1+δ₂)`,
+    `|δᵢ| ≤ 2⁻⁵³`, `1 ≤ k ≤ 2³⁰`: the value `max(1, x)` the repaired code tests is within
+    `10⁻⁶` of `k` and strictly closer to `k` than `1/2` (so `round` returns `k` whatever the
+    tie-breaking rule). Hence every fraction `k / world_size` with `k ∣ world_size` is accepted. -/
+theorem fraction_accepted (k : ℕ) (δ₁ δ₂ : ℚ) (hk1 : 1 ≤ k) (hk : k ≤ 2 ^ 30)
+    (h1 : |δ₁| ≤ 1 / 2 ^ 53) (h2 : |δ₂| ≤ 1 / 2 ^ 53) :
+    let x : ℚ := (k : ℚ) * (1 + δ₁) * (1 + δ₂)
+    |max 1 x - (k : ℚ)| ≤ 1 / 10 ^ 6 ∧ |max 1 x - (k : ℚ)| < 1 / 2 :=
+  fraction_accepted' k δ₁ δ₂ hk1 hk h1 h2
+
+/-- a product that is not an integer is at least `1/den` away from every integer; with
+    `den ≤ 10⁵` that is ≥ 10⁻⁵ > 10⁻⁶ + float error, so the tolerance test rejects it -/
+theorem nonintegral_far (n den : ℕ) (m : ℤ) (hden : 0 < den) (hnd : n % den ≠ 0) :
+    (1 : ℚ) / den ≤ |(n : ℚ) / den - m| :=
+  nonintegral_far' n den m hden hnd
 
 end KV.C06
